@@ -136,13 +136,13 @@ def run(chk, repo, tier):
     wave_t, value_t = sattr('wave'), sattr('value')
     base_map = {wave_t[0].single_atom(): value_t[0], wave_t[1].single_atom(): value_t[1]}
 
-    def edit_paths(meth, config=None):
+    def edit_paths(meth, config=None, **kw):
         f = cls.find_method(meth)
-        _, pp, _ = analyse(repo, f, config=config, types={('sym', 'other'): cls})
+        _, pp, _ = analyse(repo, f, config=config, types={('sym', 'other'): cls}, **kw)
         return f, pp
 
     # crop
-    f, pp = edit_paths('crop')
+    f, pp = edit_paths('crop', unroll=True)       # the two limits may be rows of a table walked by a loop
     n_both = 0
     okb = okc = True
     detb = ''
